@@ -81,6 +81,12 @@ def slim(c):
 
 
 def run(ctx):
+    if ctx.replay:
+        # re-run one recorded case on the implementation (oracle only)
+        binp = vlib.go_build("acl")
+        rc, o = vlib.sh([binp, "-replay", ctx.replay], timeout=600)
+        print(o, end="")
+        return 1 if rc != 0 else 0
     info, ok = vlib.proof_stage(ctx, PROP_FILE, ["Run/C08.v"])
     cov = dict(info)
     cov["trusted_base"] = vlib.STD_TRUSTED + [
@@ -161,7 +167,7 @@ def run(ctx):
             continue
         reported.add(k)
         sh = c.get("shrunk") or c
-        ctx.violation({"kind": "oracle", "reason": sh["oracle"], "signature": signature(sh), "detail": sh.get("sig"),
+        ctx.violation({"kind": "oracle", "reason": sh["oracle"], "signature": signature(sh), "detail": sh.get("sig"), "all_failing_clauses": c.get("oracle_kinds"),
                        "stream": c["stream"],
                        "token_sequence": [[sh["pool"][i]["hcl"] for i in (t["idx"] or [])] for t in sh["toks"]],
                        "case": slim(sh), "unshrunk_reason": c["oracle"],
